@@ -8,6 +8,7 @@ M8  a signed constructor bound is cast to an unsigned number only behind a `>= 0
 M7  rebuilding a missing case: a compound constructor takes exactly its arity from the witness stack and keeps the rest
 M5  sibling consistency of the parser: struct definitions, struct patterns and struct literals all sort their field lists
     (restricted to definitions after /repo fix ccbd2fe: patterns and literals are matched by name everywhere)
+M9  cross-reference: number / range patterns are values of the matched type, both bounds against both limits (C17-T15)
 M4  compound patterns: each field pattern is matched against match_expr[w .. w + size of the field], w advances by that size on
     every path of the iteration (also when the field has no pattern), and the field verdicts are AND-ed into the result
 """
@@ -550,5 +551,19 @@ def rule_m8(ctx):
     return res
 
 
+def rule_m9(ctx):
+    """Cross-reference: the lowering compares a range pattern's bounds in the width of the matched type (M3), so `honour their bounds
+    exactly` needs both bounds to be values of that type - also for inverted ranges, which the exhaustiveness check treats as
+    matching nothing (C17-T15)."""
+    from . import C17
+    res = RuleResult("M9", "number and range patterns are values of the matched type, both bounds against both limits (cross-reference to C17-T15)")
+    sub = C17.rule_t15(ctx)
+    for x in sub.findings:
+        res.bad(Finding("M9", x.fn, x.site, x.message, x.span))
+    if not sub.findings:
+        res.ok({"verdict": "C17-T15 holds"})
+    return res
+
+
 def run(ctx):
-    return ctx.run_rules([rule_m1, rule_m2, rule_m3, rule_m4, rule_m5, rule_m7, rule_m8])
+    return ctx.run_rules([rule_m1, rule_m2, rule_m3, rule_m4, rule_m5, rule_m7, rule_m8, rule_m9])
